@@ -62,9 +62,11 @@ def reference(spec, cot_seed):
         pos = [float(v[v > 0].min()) for v in x.values() if (v > 0).any()]
         if pos and min(pos) < 1e-6:
             return None
+        min_pos = min(pos) if pos else None
     else:
         K0 = len(spec['nonterminals']) + 1
         rho = 0.0
+        min_pos = None
     start = spec['start']
     shape = G.shape_of(spec, spec['nonterminals'][start])
     if cot_seed is None:          # all-ones cotangent (what bin/sum_product.py -g/-G uses by default)
@@ -115,7 +117,7 @@ def reference(spec, cot_seed):
         if any(torch.isnan(v).any() or torch.isinf(v).any() for v in g2.values()):
             return None
         out['log' if log else 'real'] = (z2, g2)
-    return dict(out=out, cot=cot, K=K, rho=rho)
+    return dict(out=out, cot=cot, K=K, rho=rho, min_pos=min_pos)
 
 
 def rescale_patterns(spec, factor):
